@@ -79,6 +79,8 @@ def got_tree(t):
         return ('N', x.data.get('label'), x.data.get('edge'), [rec(c) for c in x.children])
     return rec(t)
 
+from ..bridge import canon as bridge_canon
+
 
 def run_reader(fn, path, enc, **opts):
     """Iterate a reader; returns (trees, exception or None, stdout, stderr)."""
@@ -267,10 +269,11 @@ EXPORT_LAYOUTS = [dict(), dict(version=4), dict(header=True), dict(comments=True
                   dict(version=4, header=True, comments=True, secedges=True, numbering='rev', line_order='rev')]
 BRACKET_LAYOUTS = [dict(), dict(layout='spaced'), dict(layout='airy'), dict(layout='indented'), dict(layout='oneline'),
                    dict(empty_root=True), dict(trailing_newline=False), dict(lead='junk text ) more\n'),
+                   dict(between=')'), dict(layout='indented', between=' ) junk'),
                    dict(layout='indented', empty_root=True)]
 DISCO_LAYOUTS = [dict(), dict(layout='spaced'), dict(raw_parens=True)]
 TIGER_LAYOUTS = [dict(), dict(nt_order='pre'), dict(nt_order='rev'), dict(edge_order='rev'), dict(edge_order='rot'),
-                 dict(attr_order='rev'), dict(secedges=True), dict(id_style='s'), dict(id_style='under'),
+                 dict(attr_order='rev'), dict(secedges=True), dict(id_style='s'), dict(id_style='under'), dict(id_style='suffix'), dict(id_style='ext'),
                  dict(implicit_vroot=True), dict(head=True),
                  dict(nt_order='rev', edge_order='rev', attr_order='rev', secedges=True, id_style='under')]
 OPTION_SETS = {
@@ -425,6 +428,33 @@ def check_corpus(fmt, mtjs, layout, opts):
         text = codecs.encode_tigerxml(mts, encoding=enc, **enc_kw)
     path = write_file(fmt, text, opts, enc)
     trees_, err, so, se = run_reader(getattr(treeinput, fmt), path, enc, **ropts)
+    if err is None and opts.get('gz'):
+        # two readers alive at once: the same file is read again while a second reader on ANOTHER compressed file
+        # (the corpus repeated four times, other sentence ids) is advanced in lockstep; the trees of the first must
+        # be the ones just read
+        other = path + '.other.gz'
+        big = [model.MT(900 + i, m.toks, m.root) for i in range(4) for m in mts]
+        otext = {'export': codecs.encode_export, 'brackets': codecs.encode_brackets,
+                 'discobrackets': codecs.encode_discobrackets}.get(fmt)
+        if otext is not None:
+            with gzip.open(other, 'wb') as f:
+                f.write(otext(big).encode(enc))
+            again, err2 = [], None
+            with contextlib.redirect_stdout(io.StringIO()), contextlib.redirect_stderr(io.StringIO()):
+                try:
+                    it_a = getattr(treeinput, fmt)(path, enc, **ropts)
+                    it_b = getattr(treeinput, fmt)(other, enc, **ropts)
+                    for ta in it_a:
+                        again.append(ta)
+                        next(it_b, None)
+                except Exception as e:
+                    err2 = e
+            os.unlink(other)
+            if err2 is not None:
+                bad('interleaved-readers', 'read next to a second live reader on another .gz file: %s: %s' % (type(err2).__name__, err2))
+            elif [bridge_canon(x) for x in again] != [bridge_canon(x) for x in trees_]:
+                bad('interleaved-readers', 'read next to a second live reader on another .gz file: %d trees, differing from the %d '
+                    'trees of the same file read alone' % (len(again), len(trees_)))
     os.unlink(path)
     if err is not None:
         bad('exception', '%s: %s (after %d trees)' % (type(err).__name__, err, len(trees_)))
